@@ -852,7 +852,7 @@ structure InitPrims (σ ε α ω τ γ ψ : Type) where
   superStart : M σ ε Unit Unit                -- `super().start()`
   newQueue : M σ ε Unit Unit                  -- `self._queue = asyncio.Queue()`
   createCtrlTask : M σ ε Unit Unit            -- `self._ctrl_task = self._create_monitored_task(self._ctrl_coro(), name=…)`
-  setOutputZero : M σ ε Unit Unit             -- `self.set_output(0)`
+  setOutput : Int → M σ ε Unit Unit           -- `self.set_output(n)`
 
 /-- the leaves of `OutputFunc._event_put / stop / init_regular`; δ event data, ν values, κ events;
     the value of `_event_put` is the pair (tag, exception | result) -/
@@ -862,7 +862,7 @@ structure FuncPrims (σ ε δ ν κ : Type) where
   excIs : ε → String → Bool
   sendError : κ → ε → M σ ε (String × (ε ⊕ ν)) Unit         -- `ev.send(self, trigger='error', error=err)`
   sendSuccess : κ → ν → M σ ε (String × (ε ⊕ ν)) Unit       -- `ev.send(self, trigger='success', value=result)`
-  setOutputFalse : M σ ε (String × (ε ⊕ ν)) Unit            -- `self.set_output(False)`
+  setOutputBool : Bool → M σ ε (String × (ε ⊕ ν)) Unit      -- `self.set_output(b)`
   hasStopData : Bool                                        -- `self._stop_data is not None`
   eventPutStopData : M σ ε (String × (ε ⊕ ν)) (String × (ε ⊕ ν))   -- `self._event_put(**self._stop_data)`
   superStop : M σ ε (String × (ε ⊕ ν)) Unit                 -- `super().stop()`
@@ -891,7 +891,7 @@ def init_target(api, name, obj, doc, args, ret='Unit'):
                  ('utils.time_period', [('ty', 'guardarg')], '{P}.timePeriod {a[0]}', 'int'),
                  ('super().__init__', [('star', 'posargs'), ('starstar', 'kwargs')], '{P}.superInit', 'unit'),
                  ('super().start', [], '{P}.superStart', 'unit'),
-                 ('self.set_output', [('ty', 'int')], '{P}.setOutputZero', 'unit'),
+                 ('self.set_output', [('ty', 'int')], '{P}.setOutput {a[0]}', 'unit'),
                  ('self._create_monitored_task', [('call', 'self._ctrl_coro', []), ('anykw', 'name')],
                   '{P}.createCtrlTask', 'ctrltask')],
         setattr={'self._on_success': ('{P}.setOnSuccess {x}', 'evtuple'), 'self._on_cancel': ('{P}.setOnCancel {x}', 'evtuple'),
@@ -923,13 +923,13 @@ def func_target(api, name, method, args, ret_pair):
         catchable=('Exception',),
         lists={'self._on_error': ('onError', 'event'), 'self._on_success': ('onSuccess', 'event')},
         atoms={'self._stop_data is not None': ('P.hasStopData', 'bool'), 'self._stop_data': ('()', 'stopdata'),
-               'False': ('()', 'falseconst')},
+               },
         method_effects=[('event', 'send', [('self',), ('kwconst', 'trigger', 'error'), ('kwty', 'error', 'exc')],
                          '{P}.sendError {x} {a[0]}', 'unit'),
                         ('event', 'send', [('self',), ('kwconst', 'trigger', 'success'), ('kwty', 'value', 'fval')],
                          '{P}.sendSuccess {x} {a[0]}', 'unit')],
         effects=[('self._func', [('star', 'vals'), ('starstar', 'kwvals')], '{P}.callFunc {a[0]} {a[1]}', 'fval'),
-                 ('self.set_output', [('ty', 'falseconst')], '{P}.setOutputFalse', 'unit'),
+                 ('self.set_output', [('ty', 'bool')], '{P}.setOutputBool {a[0]}', 'unit'),
                  ('self._event_put', [('starstar', 'stopdata')], '{P}.eventPutStopData', 'retpair'),
                  ('super().stop', [], '{P}.superStop', 'unit')],
     )
